@@ -14,7 +14,8 @@ import json, re
 
 from common.check import PropertyCheck, Skip, hx, unhx
 from common import refparsers as ref
-from c05_h2 import Rig, Peer
+from c05_h2 import Rig, Peer, AccountingPeer
+import h2.settings
 
 from mitmproxy.connection import ConnectionState
 from mitmproxy.net.http import status_codes, url
@@ -372,6 +373,48 @@ class Check(PropertyCheck):
             if rng.chance(0.2): block.append((b"", b"v"))
         return block
 
+    def add_flow(self, rng, case):
+        """bodies larger than the HTTP/2 peer's initial window, position-dependent bytes, several DATA frames, and
+        WINDOW_UPDATE increments small / medium / large relative to what is buffered"""
+        cv, sv = case["cv"], case["sv"]
+        win = rng.weighted([(3, rng.randint(1, 20)), (3, rng.randint(21, 200)), (1, rng.randint(201, 2000))])
+        flow = {"c_iws": win if cv == 2 else None, "s_iws": rng.pick([win, rng.randint(1, 300)]) if sv == 2 else None}
+
+        def big(n_chunks):
+            n = rng.randint(win + 1, win * rng.randint(2, 8) + 5)
+            seed = rng.getrandbits(8)
+            return bytes((seed + 7 * k + (k >> 3)) % 251 for k in range(n))
+        incs = []
+        for _ in range(rng.randint(1, 6)):
+            incs.append(rng.weighted([(3, rng.randint(1, max(1, win // 3))), (3, rng.randint(1, win * 2)), (1, rng.randint(win, win * 10))]))
+        flow["wu"] = incs
+        case["flow"] = flow
+        for which, ver in (("req", cv), ("resp", sv)):
+            m = case[which]
+            if which == "req":
+                case["req"] = m = self.force_method(m, cv, b"POST") if False else m
+            body = big(0)
+            m["body_hex"] = hx(body); m["chunks"] = rng.randint(1, 4)
+            if ver == 2:
+                blk = [(k, v) for k, v in U(m["block"]) if k not in (b"content-length", b"content-encoding")]
+                if which == "req": blk = [(k, b"POST" if k == b":method" else v) for k, v in blk]
+                else: blk = [(k, b"200" if k == b":status" else v) for k, v in blk]
+                if rng.chance(0.5): blk.append((b"content-length", b"%d" % len(body)))
+                m["block"] = P(blk)
+                if rng.chance(0.4): m["trailers"] = P([(b"x-t", b"1")])
+                else: m.pop("trailers", None)
+            else:
+                fields = [(k, v) for k, v in U(m["fields"]) if k.lower() not in (b"content-length", b"transfer-encoding", b"content-encoding")]
+                if which == "req":
+                    m["method"] = hx(b"POST")
+                    m["framing"] = rng.pick(["cl", "chunked"])
+                else:
+                    m["status"] = 200
+                    m["framing"] = rng.pick(["cl", "chunked", "eof"])
+                if m["framing"] == "cl": fields.append((b"Content-Length", b"%d" % len(body)))
+                elif m["framing"] == "chunked": fields.append((b"Transfer-Encoding", b"chunked"))
+                m["fields"] = P(fields)
+
     def generate(self, rng, tier):
         while True:
             cv, sv = rng.pick([(2, 1), (2, 1), (2, 1), (1, 2), (2, 2), (1, 1), (1, 2), (2, 2)])
@@ -379,6 +422,10 @@ class Check(PropertyCheck):
             case["req"] = self.gen_req(rng, cv)
             method = unhx(case["req"]["method"]) if cv == 1 else dict(U(case["req"]["block"])).get(b":method", b"GET")
             case["resp"] = self.gen_resp(rng, sv, method)
+            if (cv == 2 or sv == 2) and rng.chance(0.2):
+                self.add_flow(rng, case)
+                yield case
+                continue
             r = rng.random()
             if r < 0.35:
                 which = "req" if (cv == 2 and (sv == 1 or rng.chance(0.6))) or sv == 1 else "resp"
@@ -449,12 +496,13 @@ class Check(PropertyCheck):
         return head + body
 
     @staticmethod
-    def h2_send(peer, sid, m):
+    def h2_send(peer, sid, m, after_headers=None):
         """headers / data frames / trailers of one message through a raw peer; False if the peer cannot even emit it"""
         block = U(m["block"]); body = unhx(m["body_hex"]); trailers = U(m.get("trailers"))
         if not block: return False
         ok = peer.do(peer.c.send_headers, sid, block, end_stream=not body and not trailers)
         if not ok: return False
+        if after_headers is not None: after_headers()
         k = max(1, m.get("chunks", 1)); n = max(1, -(-len(body) // k)) if body else 1
         pieces = [body[i:i + n] for i in range(0, len(body), n)]
         for j, piece in enumerate(pieces):
@@ -473,16 +521,41 @@ class Check(PropertyCheck):
     def _impl(self, case):
         cv, sv = case["cv"], case["sv"]
         st = bool(case.get("stream"))
-        rig = Rig(cv, sv, stream_req=st, stream_resp=st)
+        flow = case.get("flow")
+        IWS = h2.settings.SettingCodes.INITIAL_WINDOW_SIZE
+        if flow:
+            # small flow-control windows on the HTTP/2 sides: the peers advertise them, keep their own books and hand out
+            # WINDOW_UPDATEs of the scripted sizes (no automatic acknowledgement of received data)
+            rig = Rig(cv, sv, stream_req=st, stream_resp=st, peer_cls=AccountingPeer,
+                      client_settings={IWS: flow["c_iws"]} if flow.get("c_iws") else None,
+                      server_settings={IWS: flow["s_iws"]} if flow.get("s_iws") else None)
+        else:
+            rig = Rig(cv, sv, stream_req=st, stream_resp=st)
         w = rig.w
         rig.settle()
+
+        def drip(side):
+            """WINDOW_UPDATEs of the scripted sizes for every open stream of one side, then wide open"""
+            if not flow: return
+            for inc in list(flow.get("wu", [])) + [2 ** 20] * 3:
+                peers = [rig.cpeer] if side == "client" else list(rig.speers.values())
+                for p in peers:
+                    if p is None: continue
+                    for sid in ([1] if side == "client" else list(p.order)):
+                        p.grant(inc, sid)
+                    p.grant(inc)
+                rig.flush_peers(); rig.settle()
+
         # ---- request
         if cv == 2:
-            if not self.h2_send(rig.cpeer, 1, case["req"]): raise Skip()
+            # with streaming on, the head goes first so that the upstream peer's SETTINGS are known before the body
+            pause = (lambda: (rig.flush_peers(), rig.settle())) if (flow and st) else None
+            if not self.h2_send(rig.cpeer, 1, case["req"], after_headers=pause): raise Skip()
             rig.flush_peers()
         else:
             rig.client_send(self.h1_request_bytes(case["req"]))
         rig.settle()
+        drip("server")
         labels = w.server_labels()
         # ---- response (only if the request reached an upstream connection)
         responded = False
@@ -498,6 +571,7 @@ class Check(PropertyCheck):
                 if case["resp"].get("framing") == "eof":
                     w.peer_close(lab); rig.pump_out()
         rig.settle()
+        drip("client")
         # ---- observables
         up = {"labels": len(labels)}
         if labels:
@@ -788,6 +862,11 @@ class Check(PropertyCheck):
         if obs["responded"]:
             out.append("resp:relayed" if "response" in obs["hooks"] and "error" not in obs["hooks"] else "resp:rejected")
         if "trailers" in case["req"] or "trailers" in case["resp"]: out.append("trailers")
+        if case.get("flow"):
+            out.append("flow-control")
+            wins = [x for x in (case["flow"].get("c_iws"), case["flow"].get("s_iws")) if x]
+            big = max(len(unhx(case["req"].get("body_hex", "-"))), len(unhx(case["resp"].get("body_hex", "-"))))
+            if wins and big > min(wins): out.append("flow-control:body>window")
         return out
 
     def known(self, case, obs, failure):
